@@ -3,6 +3,7 @@ package rules
 import (
 	"fmt"
 	"go/ast"
+	"go/token"
 	"go/types"
 	"os"
 	"strings"
@@ -124,7 +125,11 @@ func goLit(f *chk.Fn) *ast.FuncLit {
 	ast.Inspect(f.Body, func(n ast.Node) bool {
 		if gs, ok := n.(*ast.GoStmt); ok {
 			if l, ok := gs.Call.Fun.(*ast.FuncLit); ok {
-				lit = l
+				// the goroutine of the function itself, not one started from inside it
+				if lit == nil || !chk.Encloses(lit, l) {
+					lit = l
+				}
+				return false
 			}
 		}
 		return true
@@ -150,6 +155,29 @@ func c19Debouncer(p *chk.Prog, r *chk.Report) {
 	recv, timeout := selectCases(lf)
 	if recv == nil || timeout == nil {
 		st.Fail("debouncer:select", f.Pos(), "no select with a receive case and a timeout case")
+		return
+	}
+	// the loop waits for submissions and for its timer, nothing else: the reload action completes inside the timeout
+	// case, so the timer flag it leaves behind describes a state in which nothing is in flight
+	nCases, asyncBody := 0, false
+	ast.Inspect(lf.Body, func(n ast.Node) bool {
+		switch y := n.(type) {
+		case *ast.SelectStmt:
+			nCases += len(y.Body.List)
+		case *ast.GoStmt:
+			ast.Inspect(y, func(m ast.Node) bool {
+				if c, isCall := m.(*ast.CallExpr); isCall {
+					if id, isId := ast.Unparen(c.Fun).(*ast.Ident); isId && isParamIdx(f, 0)(id) {
+						asyncBody = true
+					}
+				}
+				return true
+			})
+		}
+		return true
+	})
+	rt.Check("debouncer:action-completes-in-the-timeout-case", f.Pos(), nCases == 2 && !asyncBody, "", "the reload action is started aside (or the loop waits for more than submissions and its timer): a configuration submitted while an attempt is in flight finds the timer flag set and arms nothing, and when the in-flight attempt of the older configuration succeeds the flag is cleared - the newest configuration is never applied")
+	if nCases != 2 || asyncBody {
 		return
 	}
 	ev := func(e ast.Expr) bool {
@@ -618,6 +646,51 @@ func c19Submit(p *chk.Prog, r *chk.Report) {
 				rp.Check("validateReload:callers-send-on-yes", vf.Pos(), okCallers && nc > 0, "", "validateReload only reports that a re-apply is due, and a caller does not send reloadEvent{useOld: true} on every yes")
 			}
 		}
+		// the time stamp seen last, kept in a field of the object the validator runs on (`c.last = ts` through the pointer
+		// receiver / a pointer parameter): compared with the new one like the pointed-to string of the confirmed tree
+		var kept []ast.Expr
+		for _, st := range g.Find(func(m ast.Node) bool {
+			as, ok := m.(*ast.AssignStmt)
+			if !ok || as.Tok != token.ASSIGN || len(as.Lhs) != 1 || len(as.Rhs) != 1 {
+				return false
+			}
+			se, isSel := ast.Unparen(as.Lhs[0]).(*ast.SelectorExpr)
+			if !isSel {
+				return false
+			}
+			if _, isId := ast.Unparen(as.Rhs[0]).(*ast.Ident); !isId {
+				return false
+			}
+			root, isRoot := ast.Unparen(se.X).(*ast.Ident)
+			if !isRoot {
+				return false
+			}
+			v, isVar := vf.ObjOf(root).(*types.Var)
+			if !isVar {
+				return false
+			}
+			_, isPtr := v.Type().Underlying().(*types.Pointer)
+			isPar := false
+			for i := 0; i < 4; i++ {
+				if pv := vf.Param(i); pv != nil && pv == v {
+					isPar = true
+				}
+			}
+			if rv := vf.Recv(); rv != nil && rv == v {
+				isPar = true
+			}
+			return isPtr && isPar
+		}) {
+			kept = append(kept, st.Node.(*ast.AssignStmt).Lhs[0])
+		}
+		isKept := func(e ast.Expr) bool {
+			for _, k := range kept {
+				if vf.SameExpr(e, k) {
+					return true
+				}
+			}
+			return false
+		}
 		for _, rq := range reqs {
 			rq := rq
 			n++
@@ -625,7 +698,8 @@ func c19Submit(p *chk.Prog, r *chk.Report) {
 			okk := len(sites) == 1 &&
 				g.Dominated(sites[0], isFailure) &&
 				g.Dominated(sites[0], chk.GSame(g.GPat(false, "TS == *PREV"), g.GPat(false, "*PREV == TS"),
-					g.GPat(false, "TS == PREV", chk.H("PREV", isParamIdx(vf, 1))), g.GPat(false, "PREV == TS", chk.H("PREV", isParamIdx(vf, 1)))))
+					g.GPat(false, "TS == PREV", chk.H("PREV", isParamIdx(vf, 1))), g.GPat(false, "PREV == TS", chk.H("PREV", isParamIdx(vf, 1))),
+					g.GPat(false, "TS == KEPT", chk.H("KEPT", isKept)), g.GPat(false, "KEPT == TS", chk.H("KEPT", isKept))))
 			if okk {
 				// and a newly reported failure always asks for the re-apply: from the edge that establishes it every
 				// path to the end of the function passes the request
@@ -740,8 +814,91 @@ func c19K8s(p *chk.Prog, r *chk.Report) {
 		}
 		x.Check("UpdateConfig:store-then-signal", uc.Pos(), ok, "", "the new configuration is not stored before, and signalled after, every update")
 	}
-	df := need(x, p, ctrlPkg, "", "debouncer")
+	df := p.LookupFunc(ctrlPkg, "", "debouncer")
+	if df == nil {
+		// under another name, or as a method that takes the two channels from the reconciler: the one function of the
+		// package whose goroutine selects between a receive and a time.After channel and sends a reconcile event
+		var cands []*chk.Fn
+		for _, cf := range p.FuncsIn(ctrlPkg) {
+			if cf.Body == nil || cf.Lit != nil {
+				continue
+			}
+			lit := goLit(cf)
+			var lf *chk.Fn
+			if lit != nil {
+				lf = cf.LitFn(lit)
+			} else if startedAsGoroutine(p, cf) {
+				lf = cf
+			}
+			if lf == nil {
+				continue
+			}
+			rc, to := selectCases(lf)
+			if rc == nil || to == nil || len(lf.Graph().FindPat("time.After(D)")) == 0 {
+				continue
+			}
+			sendsEvent := false
+			ast.Inspect(lf.Body, func(n ast.Node) bool {
+				if ss, isSend := n.(*ast.SendStmt); isSend {
+					if t := lf.Info().TypeOf(ss.Value); t != nil && strings.HasSuffix(t.String(), "event.GenericEvent") {
+						sendsEvent = true
+					}
+				}
+				return true
+			})
+			if sendsEvent {
+				cands = append(cands, cf)
+			}
+		}
+		if len(cands) == 1 {
+			df = cands[0]
+		}
+	}
+	if df == nil {
+		df = need(x, p, ctrlPkg, "", "debouncer")
+	}
 	if df != nil {
+		r.Saw(df)
+		// the roles of the parameters of the confirmed tree: the channel the events go out on and the interval
+		isOut := func(e ast.Expr) bool {
+			if isParamIdx(df, 1)(e) && df.Recv() == nil {
+				return true
+			}
+			if df.MatchNew("RECV.reconcileChan", e) != nil {
+				return true
+			}
+			if id, isId := ast.Unparen(e).(*ast.Ident); isId {
+				if rhs, _ := df.Graph().DefOf(id, df.Graph().FactSite(id)); rhs != nil && df.MatchNew("RECV.reconcileChan", rhs) != nil {
+					return true
+				}
+				// captured by the goroutine literal from the enclosing function
+				for _, as := range assignsTo(df, df.ObjOf(id)) {
+					if a, isAs := as.(*ast.AssignStmt); isAs && a.Tok == token.DEFINE && len(a.Lhs) == len(a.Rhs) {
+						for i, l := range a.Lhs {
+							if df.ObjOf(l) == df.ObjOf(id) && df.MatchNew("RECV.reconcileChan", a.Rhs[i]) != nil && len(assignsTo(df, df.ObjOf(id))) == 1 {
+								return true
+							}
+						}
+					}
+				}
+			}
+			return false
+		}
+		isInterval := func(e ast.Expr) bool {
+			if df.Recv() == nil && isParamIdx(df, 2)(e) {
+				return true
+			}
+			id, isId := ast.Unparen(e).(*ast.Ident)
+			if !isId {
+				return false
+			}
+			for i := 0; i < 4; i++ {
+				if pv := df.Param(i); pv != nil && df.ObjOf(id) == types.Object(pv) && pv.Type().String() == "time.Duration" {
+					return true
+				}
+			}
+			return false
+		}
 		lit := goLit(df)
 		ok := lit != nil
 		var lf *chk.Fn
@@ -768,11 +925,11 @@ func c19K8s(p *chk.Prog, r *chk.Report) {
 					return isAs && len(as.Lhs) == 2 && lf.ObjOf(e) != nil && lf.ObjOf(e) == lf.ObjOf(as.Lhs[1])
 				}
 				armedG := chk.GOr(chk.GBool(true, isTS), chk.GBool(false, okVar),
-					chk.GAnd(chk.GEvent(lf.IsAssignPat("TO", "time.After(D)", chk.H("D", isParamIdx(df, 2)))), chk.GEvent(lf.IsAssignPat("T", "true", chk.H("T", isTS)))))
+					chk.GAnd(chk.GEvent(lf.IsAssignPat("TO", "time.After(D)", chk.H("D", isInterval))), chk.GEvent(lf.IsAssignPat("T", "true", chk.H("T", isTS)))))
 				// the armed state kept in the timer channel itself: nil = not armed (a nil channel is never selected)
 				var toObj types.Object
 				if ts == nil {
-					for _, s := range g.Find(lf.IsAssignPat("TO", "time.After(D)", chk.H("D", isParamIdx(df, 2)))) {
+					for _, s := range g.Find(lf.IsAssignPat("TO", "time.After(D)", chk.H("D", isInterval))) {
 						toObj = lf.ObjOf(s.Node.(*ast.AssignStmt).Lhs[0])
 					}
 					if toObj != nil && timeout != nil {
@@ -784,7 +941,7 @@ func c19K8s(p *chk.Prog, r *chk.Report) {
 					if toObj != nil {
 						isTO := lf.IsObj(toObj)
 						armedG = chk.GOr(g.GPat(false, "TO == nil", chk.H("TO", isTO)), chk.GBool(false, okVar),
-							chk.GEvent(lf.IsAssignPat("TO", "time.After(D)", chk.H("TO", isTO), chk.H("D", isParamIdx(df, 2)))))
+							chk.GEvent(lf.IsAssignPat("TO", "time.After(D)", chk.H("TO", isTO), chk.H("D", isInterval))))
 					}
 				}
 				endsR := g.RegionEnds(caseBlock(g, recv), recv, armedG)
@@ -799,7 +956,7 @@ func c19K8s(p *chk.Prog, r *chk.Report) {
 				if cb != nil {
 					w1 := (&chk.Walk{G: g, From: chk.Site{G: g, B: cb, I: -1}, Stop: func(n ast.Node) bool {
 						ss, isSend := n.(*ast.SendStmt)
-						return isSend && isParamIdx(df, 1)(ss.Chan)
+						return isSend && isOut(ss.Chan)
 					}, Hit: func(n ast.Node) bool { return !chk.Encloses(timeout, n) }, HitExit: true}).Run()
 					disarm := lf.IsAssignPat("T", "false", chk.H("T", isTS))
 					if toObj != nil {
@@ -825,6 +982,14 @@ func c19K8s(p *chk.Prog, r *chk.Report) {
 				start := chk.Site{G: g, B: e.B.Succs[e.K], I: -1}
 				region := g.Region(e)
 				w := (&chk.Walk{G: g, From: start, Hit: func(nd ast.Node) bool {
+					if as, isAs := nd.(*ast.AssignStmt); isAs && chk.Encloses(region, nd) && as.Tok == token.ASSIGN && len(as.Lhs) == len(as.Rhs) {
+						// the result of the expanded helper that Reconcile hands back
+						for i, l := range as.Lhs {
+							if id, isId := l.(*ast.Ident); isId && inlineResult.MatchString(id.Name) && isErrorTyped(rf, l) && rf.IsNilLit(as.Rhs[i]) {
+								return true
+							}
+						}
+					}
 					rs, isRet := nd.(*ast.ReturnStmt)
 					return isRet && chk.Encloses(region, nd) && len(rs.Results) == 2 && rf.IsNilLit(rs.Results[1])
 				}}).Run()
@@ -834,10 +999,9 @@ func c19K8s(p *chk.Prog, r *chk.Report) {
 		}
 		x.Check("Reconcile:error-branches", rf.Pos(), n >= 2, "", "errors of Get / CreateOrUpdate are not tested")
 		okDel := false
-		for _, rt := range g.Returns() {
-			rr := retResults(rt)
-			if len(rr) == 2 && rf.MatchWith("client.IgnoreNotFound(E)", rr[1], chk.H("E", definedBy(g, "RECV.Delete(ETC)"))) != nil {
-				okDel = g.Dominated(rt, g.GPat(true, "RECV.desiredConfiguration == nil"))
+		for _, ex := range errorExits(rf, g, 1) {
+			if rf.MatchWith("client.IgnoreNotFound(E)", ex.Expr, chk.H("E", definedBy(g, "RECV.Delete(ETC)"))) != nil {
+				okDel = g.Dominated(ex.Site, g.GPat(true, "RECV.desiredConfiguration == nil"))
 			}
 		}
 		x.Check("Reconcile:delete-error-returned", rf.Pos(), okDel, "", "with no desired configuration the resource is not deleted with the error returned")
